@@ -280,7 +280,7 @@ func fmtT(r *scen.Result, x time.Time) string {
 
 // describe renders an attempt compactly for witnesses.
 func describe(r *scen.Result, a *sim.Attempt) map[string]any {
-	return map[string]any{"key": a.Key(), "route": a.RouteID, "flush": a.FlushID, "aggr": a.AggrID, "tick": fmtT(r, a.Tick), "start": fmtT(r, a.Start),
+	return map[string]any{"instance": a.Instance, "start_ns": a.Start.UnixNano(), "end_ns": a.End.UnixNano(), "tick_ns": a.Tick.UnixNano(), "key": a.Key(), "route": a.RouteID, "flush": a.FlushID, "aggr": a.AggrID, "tick": fmtT(r, a.Tick), "start": fmtT(r, a.Start),
 		"end": fmtT(r, a.End), "reason": a.Reason, "firing": a.Firing(), "resolved": a.ResolvedKeys(), "outcome": a.Outcome}
 }
 
